@@ -72,7 +72,16 @@ func c19History(k *fw.K) {
 			case 5: // distinct ADJACENT float64 values of ordinary magnitude (0.1+0.2 against 0.3): different labels
 				t[i] = []float64{0.3, 1, 2, 0.1, 7, 1e6, -3, 9007199254740992}[r.Intn(8)]
 				p[i] = t[i]
-				switch r.Intn(4) {
+				switch r.Intn(5) {
+				case 4: // labels of tiny magnitude that differ by far more than 1e-240 (1e-200 against 0): different labels; equal ones match
+					t[i] = []float64{0, 1e-200, -1e-180, 3e-170, 1e-120}[r.Intn(5)]
+					p[i] = t[i]
+					if r.Intn(3) > 0 {
+						p[i] = t[i] + []float64{1e-200, 1e-170, -1e-163, 1e-100, -3e-230}[r.Intn(5)]
+						if !(math.Abs(p[i]-t[i]) > 1e-232) {
+							p[i] = t[i] + 1e-100
+						}
+					}
 				case 0:
 					p[i] = math.Nextafter(t[i], math.Inf(1))
 				case 1:
@@ -162,7 +171,16 @@ func c19History(k *fw.K) {
 	}
 	bad := func() (tensor.Tensor, tensor.Tensor, string) {
 		v := rt.MustLeaf(ref.Full([]int{3}, 1), false)
-		switch r.Intn(9) {
+		switch r.Intn(12) {
+		case 9: // a column [n,1] (what a single-unit layer emits) against a vector [n]: ranks differ, the call is invalid
+			n := 1 + r.Intn(4)
+			return rt.MustLeaf(ref.Full([]int{n, 1}, 1), false), rt.MustLeaf(ref.Full([]int{n}, 1), false), "column prediction [n,1] against a vector target [n]"
+		case 10:
+			n := 1 + r.Intn(4)
+			return rt.MustLeaf(ref.Full([]int{n}, 1), false), rt.MustLeaf(ref.Full([]int{n, 1}, 1), false), "vector prediction [n] against a column target [n,1]"
+		case 11:
+			n := 1 + r.Intn(4)
+			return rt.MustLeaf(ref.Full([]int{1, n}, 1), false), rt.MustLeaf(ref.Full([]int{n}, 1), false), "row prediction [1,n] against a vector target [n]"
 		case 6:
 			s := rt.MustLeaf(ref.Scalar(1), false)
 			return s, s, "one rank-0 tensor object in both roles"
